@@ -138,7 +138,9 @@ func runFileSink(rc *RunCtx, prop string, crash bool, faults bool) {
 	// decoy files outside the sink's name space must survive
 	// (the last one is a sibling's log, e.g. app-audit.log beside app.log: the prune glob <base>-*<ext>
 	// matches it, but it is not one of the sink's <base>-<timestamp><ext> files)
-	decoys := []string{"other.log", base + ext + ".bak", base + "X-1" + ext + ".old", "zz-" + base + "-5" + ext, base + "-audit" + ext}
+	decoys := []string{"other.log", base + ext + ".bak", base + "X-1" + ext + ".old", "zz-" + base + "-5" + ext, base + "-audit" + ext,
+		// look-alike neighbours WITHOUT the "-" that separates the sink's base name from its timestamps
+		base + "2" + ext, base + "_archive" + ext, base + "or" + ext}
 	if cut, _, _ := strings.Cut(sink.FileName, ext); cut != base && cut != "" {
 		decoys = append(decoys, cut+"-0000000000000000001"+ext) // a rotated file of the sibling sink <cut><ext>
 	}
